@@ -64,10 +64,13 @@ varintWidth varintPFORComputeThreshold(const uint64_t *values, uint32_t count,
 
     /* Find min and threshold percentile */
     uint64_t min = sorted[0];
-    uint32_t thresholdIndex = (count * threshold) / 100;
-    if (thresholdIndex >= count) {
-        thresholdIndex = count - 1;
+    /* 64-bit product: count * threshold overflows 32 bits for counts above
+     * UINT32_MAX / threshold (about 45 million at the 95th percentile) */
+    uint64_t thresholdIndex64 = ((uint64_t)count * threshold) / 100;
+    if (thresholdIndex64 >= count) {
+        thresholdIndex64 = count - 1;
     }
+    const uint32_t thresholdIndex = (uint32_t)thresholdIndex64;
     uint64_t thresholdValue = sorted[thresholdIndex];
 
     /* The all-ones pattern of the chosen width is the exception marker, so it
